@@ -119,6 +119,18 @@ class MedianStoppingRule(TrialScheduler):
             )
             return SchedulerDecision.STOP
 
+    def on_trial_add(self, trial: Trial):
+        self.scheduler.on_trial_add(trial)
+
+    def on_trial_error(self, trial: Trial):
+        self.scheduler.on_trial_error(trial)
+
+    def on_trial_complete(self, trial: Trial, result: Dict):
+        self.scheduler.on_trial_complete(trial, result)
+
+    def on_trial_remove(self, trial: Trial):
+        self.scheduler.on_trial_remove(trial)
+
     def grace_condition(self, time_step: float) -> bool:
         """
         :param time_step: Value :code:`result[self.resource_attr]`
